@@ -97,6 +97,26 @@ impl SimFactory {
 	}
 }
 
+impl SimFactory {
+	/// To be called from the `cfg(watchexec_verif)` spawn interceptor: no hook context, the
+	/// command was prepared by somebody else's spawn hook (the CLI's).
+	pub fn on_intercept(&self, command: &mut TokioCommandWrap) {
+		let n = self.next.fetch_add(1, Ordering::SeqCst) + 1;
+		let kid = self
+			.kids
+			.get((n - 1 - self.base) as usize)
+			.cloned()
+			.or_else(|| self.kids.last().cloned())
+			.unwrap_or_default();
+		command.wrap(SimWrapper {
+			n,
+			kid,
+			tag: -1,
+			rec: self.rec.clone(),
+		});
+	}
+}
+
 /// How a `CommandState` looks from a hook or a `run()` closure.
 pub fn state_class(state: &CommandState) -> String {
 	match state {
